@@ -334,6 +334,38 @@ def h_table_sym(a0: int, b0: int, a1: int, b1: int, a2: int, b2: int, nf: int, n
         raise Violation(f"table :: {err}\nshard: {shard} mins={realize(mins)} maxs={realize(maxs)} limits={realize(limits)}\n{realize(text)}")
 
 
+def h_titles(ti: int, fi: int, shard=None) -> None:
+    """column titles of several lines and of different heights: every printed line is as wide as the border and the separators of
+    every title / record row sit under the '+' marks"""
+    from ak.ppobj import PPTable
+    titles = [{"id": "id\nident"}, {"id": "i\nd\nx", "name": "the\nname"}, {"name": "n\nlong title of the name"}, {"id": "a\nb", "name": "c\nd", "lvl": "e\nf"},
+              {"lvl": "level\n(int)\n-"}]
+    fmts = ["id,lvl,name", "id:1-3,lvl:0-3,name:2", "id:7,lvl:1,name:1-40", "name:2,id", "id,lvl!,name:3-5;1:1"]
+    reject_unless(0 <= ti < len(titles) and 0 <= fi < len(fmts))
+    ti, fi = realize(ti), realize(fi)
+    with concrete():
+        recs = [(1, 10, "Linus"), (2, 10, "Arnold"), (3, 17, "Hermiona Granger")]
+        t = PPTable(recs, fields=["id", "lvl", "name"], fields_titles=titles[ti], fmt=fmts[fi])
+        lines = t.ch_text(no_color=True).plain_text().split("\n")
+        what = f"titles {titles[ti]} fmt {fmts[fi]!r}"
+        border = lines[0]
+        if not border or set(border) - set("+-"):
+            raise Violation(f"table :: {what}: the first line is not a border line: {border!r}")
+        plus = [i for i, ch in enumerate(border) if ch == "+"]
+        borders = [i for i, l in enumerate(lines) if l == border]
+        for i, l in enumerate(lines):
+            if len(l) != len(border):
+                raise Violation(f"table :: {what}: line {i + 1} {l!r} is {len(l)} wide, the border {len(border)}:\n" + "\n".join(lines))
+        for i in range(borders[0] + 1, borders[-1]):
+            if i in borders:
+                continue
+            l = lines[i]
+            if l.startswith("|...") or "skipped" in l:
+                continue
+            if any(l[p_] != "|" for p_ in plus):
+                raise Violation(f"table :: {what}: line {i + 1} {l!r} has no '|' under every '+' of the border:\n" + "\n".join(lines))
+
+
 def jobs(tier: str) -> List[Job]:
     t = tier == "thorough"
     js: List[Job] = []
@@ -362,6 +394,7 @@ def jobs(tier: str) -> List[Job]:
     for k, (cols, rs) in enumerate([([(1, 0, True)], 5), ([(0, 0, True)], 3), ([(2, 3, True), (1, 0, False)], 5)]):
         js.append(Job(__name__, "h_table_sym", shard={"cols": cols, "lk": 1, "hf": (0, 0), "rs": rs, "amin0": 24, "amax": 25, "limmax": 3}, budget_s=1500 if t else 100,
                       per_path_timeout=30, label=f"sym:wide:{k}:rs{rs}"))
+    js.append(Job(__name__, "h_titles", shard={}, budget_s=100, label="enum:multi-line-titles", must_exhaust=True))
     # the same enum field type in two columns of different widths (cached cell texts must not remember a width)
     for rs in (2, 4):
         js.append(Job(__name__, "h_table", shard={"ncols": 2, "W": 4, "rs": rs, "fields": [2, 2], "mods": [2, 3], "narrow_rest": True, "hf": [(0, 0)], "lk": [0]},
